@@ -67,6 +67,7 @@ structure Sys where
   gfound : GId → Bool
   gtasks : GId → List Name
   nextOid : Nat
+  inherited : Name → Bool            -- TaskDispatcher.inherited_status: created task name ↦ its placeholder had bad_deps
   order : List Name                  -- `list(self.tasks)`: the keys of the task table in insertion order
   nodes : Name → Option Node
   ready : List Name
@@ -82,7 +83,7 @@ structure Sys where
 
 def init (inp : Input) : Sys :=
   { tasks := lookup0 inp.tasks0, targets := lookup0 inp.targets0, created := fun _ => false, evaluated := [],
-    gfound := fun _ => false, gtasks := inp.gtasks0, nextOid := 1000, order := inp.tasks0.map Prod.fst,
+    gfound := fun _ => false, gtasks := inp.gtasks0, nextOid := 1000, inherited := fun _ => false, order := inp.tasks0.map Prod.fst,
     nodes := fun _ => none, ready := [], waiting := [], toRun := inp.sel, dispatched := [], cur := none,
     susp := .running, running := [], stop := false, final := 0, events := [] }
 
@@ -97,6 +98,10 @@ def stOf (s : Sys) (d : Name) : RS :=
 /-- `ExecNode(task, parent)` / `reset_task`: `task_dep = task.task_dep[:]`, `calc_dep = task.calc_dep.copy()` -/
 def mkNode (td : TDef) (anc : List Name) : Node := { task := td, pend := td.deps, calcPend := td.calcDep, anc := anc }
 
+/-- `_gen_node`, first time: `ExecNode(self.tasks[name], parent)` + `node.bad_deps.extend(inherited[0])` when the name
+    was registered by a creator whose placeholder node had bad_deps (repair of finding C05 delayed-group-subtasks-run) -/
+def mkNodeI (s : Sys) (d : Name) (td : TDef) (anc : List Name) : Node := { mkNode td anc with bad := s.inherited d }
+
 /-! ### `_gen_node`, `_node_add_wait_run`, `_process_calc_dep_results`, `_update_waiting` -/
 
 def genStep (s : Sys) (n : Name) (nd : Node) (d : Name) (pc' : PC) : Sys :=
@@ -106,7 +111,7 @@ def genStep (s : Sys) (n : Name) (nd : Node) (d : Name) (pc' : PC) : Sys :=
     match s.tasks d with
     | none => { s with susp := .err .crash }
     | some td =>
-      { setNode (setNode s d (mkNode td (nd.anc ++ [d]))) n { nd with pc := pc' } with ready := s.ready ++ [d] }
+      { setNode (setNode s d (mkNodeI s d td (nd.anc ++ [d]))) n { nd with pc := pc' } with ready := s.ready ++ [d] }
 
 def unfinished (s : Sys) (d : Name) : Bool := !(stOf s d).finished
 
@@ -229,7 +234,7 @@ def insertNewW (inp : Input) (order : List Name) (targets : Name → Option Name
                   some { newDef targets oid nt with deps := (newDef targets oid nt).deps ++ wildDeps inp order nt }
                 else tasks k) r
 
-def evalCreator (inp : Input) (s : Sys) (l : LId) (tname : Name) : Sys :=
+def evalCreator (inp : Input) (s : Sys) (l : LId) (tname : Name) (bad : Bool) : Sys :=
   match regTargets s.targets (targetPairs (inp.make (inp.creatorOf l) tname)) with
   | none => { s with susp := .err .dupTarget, evaluated := s.evaluated ++ [inp.creatorOf l],
                      events := Ev.creator (inp.creatorOf l) :: s.events }
@@ -239,6 +244,7 @@ def evalCreator (inp : Input) (s : Sys) (l : LId) (tname : Name) : Sys :=
                         (inp.make (inp.creatorOf l) tname),
              order := orderAfter s.order (inp.make (inp.creatorOf l) tname),
              nextOid := s.nextOid + (inp.make (inp.creatorOf l) tname).length,
+             inherited := fun k => (bad && (inp.make (inp.creatorOf l) tname).any (fun nt => nt.name == k)) || s.inherited k,
              events := Ev.creator (inp.creatorOf l) :: s.events }
 
 /-- `node.reset_task(self.tasks[name], self._add_task(node))`: `task_dep` and `calc_dep` are re-initialised -/
@@ -289,9 +295,9 @@ def loaderStep (inp : Input) (s : Sys) (n : Name) (nd : Node) (l : LId) : Sys :=
   | none => { s with susp := .err .crash }
   | some tT =>
     if mustCreate inp s l tT then
-      match (evalCreator inp s l (toLoad inp l n)).susp with
-      | .err _ => evalCreator inp s l (toLoad inp l n)
-      | _ => afterCreate inp (evalCreator inp s l (toLoad inp l n)) n nd l
+      match (evalCreator inp s l (toLoad inp l n) nd.bad).susp with
+      | .err _ => evalCreator inp s l (toLoad inp l n) nd.bad
+      | _ => afterCreate inp (evalCreator inp s l (toLoad inp l n) nd.bad) n nd l
     else afterCreate inp s n nd l
 
 /-! ### the generators -/
@@ -357,7 +363,7 @@ def dtick (inp : Input) (s : Sys) : Sys :=
         | none =>
           match s.tasks t with
           | none => { s with susp := .err .crash }
-          | some td => { setNode s t (mkNode td [t]) with cur := some t, toRun := ts }
+          | some td => { setNode s t (mkNodeI s t td [t]) with cur := some t, toRun := ts }
       | [] =>
         if s.waiting ≠ [] then
           (if s.dispatched = [] then { s with susp := .err .cyclic } else { s with susp := .holdOn })
